@@ -113,13 +113,27 @@ def ts_cached(m, meta):
     try:
         calls = []
 
+        fail = {"next": False}
+
         @U.terminal_size_cached
         def f():
             calls.append(state["ts"])
+            if fail["next"]:
+                fail["next"] = False
+                raise KeyboardInterrupt()
             return ("value for", state["ts"])
         last = None
-        for step in range(300):
-            op = rng.choice(["resize", "same", "call", "call", "invalidate"])
+        for step in range(600):
+            op = rng.choice(["resize", "same", "call", "call", "invalidate", "failing-call"])
+            if op == "failing-call":
+                # the wrapped function is interrupted: nothing may be remembered for the terminal size of that attempt
+                fail["next"] = True
+                try:
+                    f()
+                    fail["next"] = False
+                except KeyboardInterrupt:
+                    last = None if last != state["ts"] else last
+                continue
             if op == "resize":
                 state["ts"] = rng.choice([(80, 30), (100, 40), (120, 50)])
             elif op == "invalidate":
@@ -127,17 +141,21 @@ def ts_cached(m, meta):
                 last = None
             elif op == "call":
                 n = len(calls)
-                r = f()
+                try:
+                    r = f()
+                except BaseException as e:      # noqa
+                    problems.append(("a call of the cached function raised although the wrapped function did not", type(e).__name__, str(e)[:80]))
+                    break
                 if r != ("value for", state["ts"]):
                     problems.append(("stale value", r, "terminal size now", state["ts"]))
                     break
-                if (len(calls) != n) != (last != state["ts"]):
+                if (len(calls) != n) != (last != state["ts"]) and last is not None:
                     problems.append(("recomputed" if len(calls) != n else "not recomputed", "previous size", last, "now", state["ts"]))
                     break
                 last = state["ts"]
     finally:
         U.get_terminal_size = saved
-    return {"reproduced": bool(problems), "input": "300 random resize / call / invalidate steps", "observed": problems[:2]}
+    return {"reproduced": bool(problems), "input": "600 random resize / call / failing call / invalidate steps", "observed": problems[:2]}
 
 
 def toggles(m, meta):
